@@ -15,7 +15,7 @@ pyrepseq = boot.import_pyrepseq()
 
 PROPERTY = "C17"
 DELTA = 1e-12
-RULE = ("subsample: count vectors (length 1..12, entries 0..30, zeros included) x every kind of n in 0..total (+ n > total must "
+RULE = ("subsample: the same count object depleted in place between 2-4 calls must be honoured at every call; count vectors (length 1..12, entries 0..30, zeros included) x every kind of n in 0..total (+ n > total must "
         "raise), NumPy seed generated: indices sorted & unique, counts > 0, sum == n, count_i <= original_i; uniformity: for a "
         "small generated vector, M = 20000 seeded draws, per category the sample means of X_i and X_i^2 against the "
         "multivariate-hypergeometric moments with Hoeffding bounds at delta = 1e-12 per comparison. downsample: lists / arrays / "
@@ -65,6 +65,31 @@ def check_subsample(case, rec):
     idx2, cnt2 = call("subsample", pyrepseq.subsample, arr, n)
     if [int(x) for x in idx2] != idx or [int(x) for x in cnt2] != cnt:
         raise Violation("subsample-seed", "same NumPy seed gave a different subsample")
+
+
+def check_subsample_reuse(case, rec):
+    """Multi-round drawing without replacement: the SAME list / array object is depleted in place between calls;
+    every call must honour the object's current contents."""
+    counts, seed = list(case["counts"]), case["np_seed"]
+    obj = counts if case.get("as", "list") == "list" else np.array(counts, dtype=np.int64)
+    rec.note(case, len(case["draws"]) >= 2 and sum(1 for c in counts if c > 0) >= 2, [case.get("as", "list"), f"rounds={len(case['draws'])}"])
+    np.random.seed(seed)
+    for rnd, frac in enumerate(case["draws"]):
+        cur = [int(x) for x in obj]
+        total = sum(cur)
+        n = min(total, max(0, int(round(frac * total))))
+        idx, cnt = call("subsample", pyrepseq.subsample, obj, n)
+        idx, cnt = [int(x) for x in idx], [int(x) for x in cnt]
+        ctx = f"round {rnd}: subsample({cur}, {n}) -> {idx}, {cnt}"
+        if sum(cnt) != n or idx != sorted(set(idx)) or any(c <= 0 for c in cnt):
+            raise Violation("subsample-reuse-conservation", ctx)
+        for i, c in zip(idx, cnt):
+            if not (0 <= i < len(cur)) or c > cur[i]:
+                raise Violation("subsample-reuse-exceeds-current", ctx)
+            obj[i] -= c                      # deplete the same object in place
+    left = sum(int(x) for x in obj)
+    np.random.seed(seed)
+    must_raise("subsample-reuse-too-many", pyrepseq.subsample, obj, left + 1)
 
 
 def check_subsample_uniform(case, rec):
@@ -229,6 +254,14 @@ def subsample_case(draw, tier="quick"):
 
 
 @st.composite
+def reuse_case(draw, tier="quick"):
+    k = draw(st.integers(1, 8))
+    counts = draw(st.lists(st.sampled_from([0, 1, 1, 2, 3, 5, 8]), min_size=k, max_size=k))
+    return {"counts": counts, "np_seed": draw(st.integers(0, 2 ** 32 - 1)), "as": draw(st.sampled_from(["list", "array"])),
+            "draws": draw(st.lists(st.sampled_from([0.0, 0.3, 0.5, 0.5, 1.0]), min_size=2, max_size=4))}
+
+
+@st.composite
 def uniform_case(draw, tier="quick"):
     k = draw(st.integers(2, 4))
     counts = draw(st.lists(st.integers(0, 4), min_size=k, max_size=k))
@@ -281,6 +314,7 @@ def mle_case(draw, tier="quick"):
 
 SUBS = [
     Sub("subsample", check_subsample, strategy=lambda t: subsample_case(t), budget=(4000, 40000)),
+    Sub("subsample_reuse", check_subsample_reuse, strategy=lambda t: reuse_case(t), budget=(1500, 15000)),
     Sub("subsample_uniform", check_subsample_uniform, strategy=lambda t: uniform_case(t), budget=(48, 480)),
     Sub("downsample", check_downsample, strategy=lambda t: downsample_case(t), budget=(3000, 30000)),
     Sub("powerlaw_sample", check_powerlaw_sample, strategy=lambda t: powerlaw_case(t), budget=(800, 8000)),
